@@ -8,7 +8,7 @@ import (
 
 //zzv:bound S1 = one real poll (updateSensor -> Sensor.GetValue -> UpdateSimpleMovingAvg) of a hwmon / file / cmd sensor: previous smoothed value any float64 with |avg| <= 2^20, reading any integer |x| <= 2^20, window n in {1,2,10} (thorough 1..32): min(avg,x) <= avg' <= max(avg,x); by induction the smoothed value stays within the hull of the initial value and all readings
 //zzv:bound S2 = geometric approach as absolute rungs (ratio form does not finish): |avg-c| <= d implies |avg'-c| <= d*(1-1/n)*(1+1e-6) for a constant integer reading c (|c| <= 2^20), d in {2^20, 1000, 1} and n in {2,10} quick; full ladders d = 2^20 .. 1e-3 for n in {2,10} thorough
-//zzv:bound S3 = a poll whose read fails (file missing / unreadable, command exits non-zero, non-numeric text) returns an error and leaves the smoothed value bit-identical, for each sensor backend
+//zzv:bound S3 = a poll whose read fails (file missing / unreadable, command exits non-zero with or without a number on its output, non-numeric text) returns an error and leaves the smoothed value bit-identical, for each sensor backend
 //zzv:bound S4 = a poll whose read yields NaN or +-Inf (cmd sensor printing nan/inf) leaves the smoothed value unchanged
 //zzv:outside windows above 32; magnitudes above 2^20 milli-degrees (1048 degrees); timing of polls; the initial seeding read
 //zzv:opts fptimeout_quick=240
@@ -147,4 +147,25 @@ func ZZ_C08_S4_NonFiniteIgnored() {
 	after := s.GetMovingAvg()
 	zzv.RecordF("avgAfter", after)
 	zzv.Assert(after == avg, "S4.non_finite_reading_leaves_average_unchanged")
+}
+
+// a cmd sensor whose command exits non-zero (possibly after printing a number or anything else):
+// the real SafeCmdExecution + CmdSensor.GetValue + updateSensor must treat the poll as failed
+func ZZ_C08_S3_FailingCommandIgnored() {
+	zzv.RealCommands()
+	configuration.CurrentConfig.TempRollingWindowSize = zzWindow()
+	tool := zzv.TempDir("sensor") + "/read_temp"
+	texts := []string{"", "0", "41000", "41000\n", "4", "garbage"}
+	zzv.ExecScenarioStderr(tool, zzv.ExecExitError, texts[zzv.Choice("printed", len(texts))], "sensor bus error\n")
+	s, err := sensors.NewSensor(configuration.SensorConfig{ID: "zzsensor", Cmd: &configuration.CmdSensorConfig{Exec: tool}})
+	if err != nil {
+		panic(err)
+	}
+	avg := zzBoundedAvg("avg")
+	s.SetMovingAvg(avg)
+	uerr := updateSensor(s)
+	after := s.GetMovingAvg()
+	zzv.RecordF("avgAfter", after)
+	zzv.Assert(uerr != nil, "S3.failing_command_is_reported")
+	zzv.Assert(after == avg, "S3.failing_command_leaves_average_unchanged")
 }
